@@ -135,6 +135,8 @@ var srcTargets = []srcTarget{
 	{Group: "Decode", Name: "loadUser", Only: "V2"},
 	{Group: "Decode", Name: "loadAccount", Only: "V2"},
 	{Group: "Decode", Name: "loadOperator", Only: "V2"},
+	{Group: "Decode", Name: "loadAuthorizationRequest", Only: "V2"},
+	{Group: "Decode", Name: "loadAuthorizationResponse", Only: "V2"},
 	{Group: "Decode", Recv: "v1ActivationClaims", Name: "migrateV1", Only: "V2"},
 	{Group: "Decode", Recv: "v1UserClaims", Name: "migrateV1", Only: "V2"},
 	{Group: "Decode", Recv: "v1OperatorClaims", Name: "migrateV1", Only: "V2"},
